@@ -4,6 +4,7 @@ import Ruint.Lemmas.Str
 import Ruint.Lemmas.GenRadixBE
 import Ruint.Lemmas.GenRadixLE
 import Ruint.Lemmas.StrTable
+import Mathlib.Tactic.IntervalCases
 
 /-!
 # C09 — radix conversion, parsing and formatting agree with positional notation
@@ -342,5 +343,27 @@ theorem gen_classify_eq (radix : ℕ) (c : Char) :
     Ruint.StrTable.classifyT Ruint.Gen.StrTable.low Ruint.Gen.StrTable.high Ruint.Gen.StrTable.lowMax radix c = classify radix c
     ∧ Ruint.Gen.StrTable.radixMax = 64 :=
   ⟨Ruint.StrTable.classify_eq radix c, Ruint.StrTable.radixMax_eq⟩
+
+/-! ## The exhaustive character sweep of the correspondence run
+
+The driver's `sweep` operation compares implementation and model on **every** Unicode scalar value `c`, as the second
+character of `"1c"` (`"Bc"` above radix 36: the digit 1 of that alphabet). It evaluates the model only on the characters
+`classify` does not reject; for the others the model's outcome is this theorem (so the sweep's model column is the model's
+output for every character). -/
+
+theorem sweep_lead_ok (radix : ℕ) (h2 : 2 ≤ radix) (h64 : radix ≤ 64) : fromBaseBE 64 radix [1] = .ok [1] := by
+  interval_cases radix <;> decide +kernel
+
+theorem sweep_default_outcome (radix : ℕ) (h2 : 2 ≤ radix) (h64 : radix ≤ 64) (c : Char)
+    (hc : classify radix c = .bad) :
+    fromStrRadix 64 radix [if radix ≤ 36 then '1' else 'B', c] = .error (.invalidChar c) := by
+  have hv := sweep_lead_ok radix h2 h64
+  have h1 : classify radix (if radix ≤ 36 then '1' else 'B') = .digit 1 := by
+    by_cases h : radix ≤ 36
+    · simp only [h, if_true, classify]; decide
+    · simp only [h, if_false, classify]; decide
+  unfold fromStrRadix
+  have hr : ¬ radix > 64 := by omega
+  simp only [hr, if_false, scan, h1, hc, hv]
 
 end Ruint.C09
